@@ -423,7 +423,7 @@ def gen_ens2_specs(seed, n):
                         nbins=[rng.choice([1, 2, 3]) for _ in range(ndim)], npts=rng.choice([2, 3, 5]),
                         cost=rng.choice(sorted(COSTS)), bounds=rng.random() < 0.8, tight=tight, clip=clip,
                         cons=rng.random() < 0.2, pen=rng.random() < 0.2, instance=False,
-                        genmon=rng.random() < 0.5, evalmon=rng.random() < 0.3, maxgen=rng.choice([40, 120, 300]),
+                        genmon=rng.random() < 0.5, evalmon=rng.random() < 0.3, maxgen=rng.choice([40, 120, 120, 300]),
                         term=term, tol=rng.choice([1e-2, 1e-3, 1e-4]), stepmap=rng.choice(QUICK_MAPS),
                         seed=rng.randrange(10 ** 6)))
     return out
@@ -516,7 +516,7 @@ def _work(spec):
 def run(tier='quick', seed=0):
     quick = tier == 'quick'
     n_perm, sizes = (18, [2, 3, 4, 5, 5, 5]) if quick else (150, [1, 2, 3, 4, 5, 5, 5])
-    n_de2, n_ens, n_ens2 = (160, 160, 120) if quick else (3000, 3000, 1500)
+    n_de2, n_ens, n_ens2 = (160, 160, 64) if quick else (3000, 3000, 1500)
     res = Result(
         rule='(i) seeded subsets of <= 5 distinct Set* calls x ALL their permutations per solver type (DE1, DE2, NM, '
              'Powell), trajectory over <= 10 Steps compared == with the sorted order; (ii) seeded DE2 settings, builtin '
